@@ -17,8 +17,9 @@ RULES = {
     'R5': '_log_filter_store and _log_filter_apply_to_cs interpret every enum qb_log_filter_conf member and set/clear the bit of the target passed in',
     'W1': 'QB_LOG_TARGET_MAX <= number of bits of qb_log_callsite.targets',
     'R6': 'removing a filter (or clearing a tag filter) leaves the known call sites as the remaining stored filters select them: the remove path clears and then re-applies every stored filter of that target / every stored tag filter (what first-seen call sites get), it does not clear by the arguments of the remove call; closing a target clears its filters with arguments qb_log_filter_ctl accepts',
+    'R7': 'names are compared whole: the matcher makes no bounded copy of a filter alternative; the dynamic call-site lookup compares the function name wherever it compares the file name',
 }
-FLOORS = {'R1': 6, 'R2': 4, 'R3': 9, 'R4': 10, 'R5': 7, 'W1': 1, 'R6': 3}
+FLOORS = {'R1': 6, 'R2': 4, 'R3': 9, 'R4': 10, 'R5': 7, 'W1': 1, 'R6': 3, 'R7': 2}
 
 
 def run(ctx):
@@ -28,6 +29,7 @@ def run(ctx):
     r4(ctx)
     r5(ctx)
     r6(ctx)
+    r7(ctx)
     w1(ctx)
 
 
@@ -396,3 +398,39 @@ def r6(ctx):
     ctx.check('R6', 'target_free-clears-filters', ok, clr[0] if clr else tf,
               'closing a target clears its filters with a text qb_log_filter_ctl2 accepts',
               'qb_log_target_free asks for CLEAR_ALL with a NULL text, which qb_log_filter_ctl2 refuses: the closed target\'s filters and call-site bits are inherited by the next target opened in the slot')
+
+
+def r7(ctx):
+    """identity and matching use whole strings"""
+    prog = ctx.prog
+    f = prog.fn('_cs_matches_filter_')
+    arrs = [ev for ev in f.events('DECL') if prog.type_info(ev.d.get('ty', '')).get('kind') == 'array']
+    copies = [ev for ev in f.events('CALL') if ev.callee in ('snprintf', 'strncpy', 'memcpy', 'strlcpy') and ev.args and
+              unwrap(ev.args[0]).get('k') == 'var' and unwrap(ev.args[0])['n'] in {a.d['var'] for a in arrs}]
+    ctx.check('R7', 'matcher:no-bounded-copy-of-names', not copies, copies[0] if copies else f,
+              'file/function alternatives are compared in place',
+              'a filter alternative is copied into a fixed-size buffer (%s) before it is compared: a name longer than the buffer never matches its own filter and a name equal to '
+              'the cut prefix matches wrongly' % (arrs[0].d.get('ty') if arrs else ''))
+    try:
+        d = prog.fn('qb_log_dcs_get')
+    except Exception:
+        return
+    # every event that is reached because the file name compared equal is also guarded by the function name comparing equal
+    def eq_on(at, fld):
+        return at.op == '==' and at.rc == 0 and callee_of(unwrap(at.l)) == 'strcmp' and any(
+            nd.get('k') == 'mem' and nd.get('rec') == 'qb_log_callsite' and nd.get('f') == fld for nd in walk(at.l))
+    n = 0
+    bad = []
+    for ev in d.events():
+        if ev.kind not in ('RETURN', 'STORE'):
+            continue
+        gs = [at for (at, _e) in d.guards(ev)]
+        if any(eq_on(at, 'filename') for at in gs):
+            n += 1
+            if not any(eq_on(at, 'function') for at in gs):
+                bad.append(d.blocks[ev.blk])
+    if n == 0:
+        raise AnalysisBroken('qb_log_dcs_get: no identity comparison on the file name')
+    ctx.check('R7', 'dcs:identity-includes-function', not bad, '%s:%d (qb_log_dcs_get)' % (d.file, bad[0].term_ln if bad else d.line),
+              'a dynamic call site is identified by file, function, line, priority and format',
+              'a dynamic call site is looked up without comparing the function name: two log calls that differ in the function only share one call site (function filters see the first)')
